@@ -5,6 +5,7 @@ percolated graph captured (scripted draws / table rules): the captured graph mus
 u->v exactly when the rule says so, and the estimate must be an allowed value for it."""
 from fractions import Fraction as F
 import networkx as nx
+import numpy as np
 import common, gen, sims, allsims, rng as rngmod
 from common import fr, rs
 
@@ -116,11 +117,36 @@ def run(ctx):
                 zeta = {u: r.randrange(4) for u in G}
                 thr = r.randrange(1, 6)
                 rep.update(xi=[xi[u] for u in G], zeta=[zeta[u] for u in G], thr=thr)
+                # the docstring only asks for something indexable by node ("xi[u]"): plain dict, defaultdict (the
+                # library's own example uses one), a dict subclass with __missing__, and — for nodes 0..n-1 — list / array
+                import collections
+                kind = ["dict", "defaultdict", "missing", "list", "array"][r.randrange(5)]
+                if kind in ("list", "array") and list(G) != list(range(G.order())):
+                    kind = "defaultdict"
+                def wrapc(d, kind=kind):
+                    if kind == "defaultdict":
+                        m = max(d.values()) if d else 0
+                        out = collections.defaultdict(lambda m=m: m)
+                        out.update({u: v for u, v in d.items() if v != m})      # the most frequent large value is the default
+                        return out
+                    if kind == "missing":
+                        class D(dict):
+                            def __missing__(self, key, d=d):
+                                return d[key]
+                        return D()
+                    if kind == "list":
+                        return [d[u] for u in G]
+                    if kind == "array":
+                        return np.array([d[u] for u in G])
+                    return dict(d)
+                xi_arg, zeta_arg = wrapc(xi), wrapc(zeta)
+                rep["containers"] = kind
+                ctx.count("nonMarkov-containers:" + kind)
                 transmission = lambda x, z: x + z >= thr
                 orig = sim.nonMarkov_directed_percolate_network
                 sim.nonMarkov_directed_percolate_network = lambda *a, **k: captured.setdefault("H", orig(*a, **k))
                 try:
-                    res = EoN.estimate_nonMarkov_SIR_prob_size(G, xi, zeta, transmission)
+                    res = EoN.estimate_nonMarkov_SIR_prob_size(G, xi_arg, zeta_arg, transmission)
                 finally:
                     sim.nonMarkov_directed_percolate_network = orig
                 H = captured["H"]
